@@ -130,19 +130,73 @@ R.contract(M_CMD + ":Command.named_sub_commands", params={}, returns="ref Comman
 R.contract(M_CMD + ":Command.default_sub_commands", params={}, returns="ref CommandCollection",
            ensures=["result is self._default_sub_commands"], modifies=[]).is_property = True
 
-R.shape("ResolveResult", g_base="ref Command")
+# ---- the default rule: first parsable default (sub-)command, else the first one --------------------------------------
+R.uf("cc_cmds", ["ref CommandCollection"], "seq[ref Command]", native=lambda coll: list(coll))
+R.uf("dsubs_of", ["ref Command"], "ref CommandCollection", native=lambda c: c.default_sub_commands)
+R.uf("parsable", ["ref Command", "ref RawArgs"], "bool")
+R.contracts[M_CMD + ":Command.default_sub_commands"].ensures.append("[def] result is dsubs_of(self)")
+R.contract(M_COLL + ":CommandCollection.__iter__", params={}, returns="iter[ref Command]",
+           ensures=["fresh(result)", "iter_seq(result) == cc_cmds(self)", "iter_pos(result) == 0"], modifies=[], assumed=True,
+           note="iteration over the commands in registration order (the abstract view cc_cmds)")
+R.contract(M_RES + ":ResolveResult.is_parsable", params={}, returns="bool",
+           ensures=["result == parsable(self._command, self._raw_args)", "self._command is old(self._command)",
+                    "self._raw_args is old(self._raw_args)"],
+           raises={"Exception": "True"},
+           modifies=["self._parsed", "self._parsed_args", "self._parse_error"], assumed=True,
+           note="parses lazily once; whether the command's format accepts the raw arguments is the abstract predicate "
+                "`parsable` (the parser itself: C01/C02)")
+# fp(S, a, i): the first command of S[i:] that can parse a, else S[0]
+R.uf("no_command", ["int"], "ref Command")  # (only to make fp total: the value for an empty collection is never used)
+R.spec_fn(
+    "fp", [("S", "seq[ref Command]"), ("a", "ref RawArgs"), ("i", "int")],
+    "(S[0] if len(S) > 0 else no_command(0)) if (i < 0 or i >= len(S)) else (S[i] if parsable(S[i], a) else fp(S, a, i + 1))",
+    "ref Command", recursive=True,
+)
+PDC = M_DEF + ":DefaultResolver.process_default_commands"
+R.contract(
+    PDC, params={"args": "ref RawArgs", "default_commands": "ref CommandCollection"}, returns="ref ResolveResult?",
+    ensures=[
+        "(result is None) == (len(cc_cmds(default_commands)) == 0)",
+        # the first default command that can parse the arguments, else the first default command
+        "implies(result is not None, fresh(result) and result._raw_args is args and "
+        "result._command is fp(cc_cmds(default_commands), args, 0))",
+    ],
+    raises={"Exception": "True"},
+    modifies=[],
+)
+SDC = "cc_cmds(default_commands)"
+R.loop(
+    PDC, 0,
+    invariants=[
+        "fp(%s, args, 0) is fp(%s, args, _i)" % (SDC, SDC),
+        "(_i == 0 and first_result is None) or (_i >= 1 and first_result is not None and fresh(first_result) and "
+        "first_result._command is %s[0] and first_result._raw_args is args)" % SDC,
+    ],
+    modifies=[],
+    var_kinds={"first_result": "ref ResolveResult?", "resolved_command": "ref ResolveResult", "default_command": "ref Command"},
+    fingerprint="default_command in default_commands",
+)
+
+
+def sel(c):
+    """the command selected when the path of names ends at command c: its first parsable default sub-command, else its
+    first default sub-command, else c itself"""
+    return "(%s if len(cc_cmds(dsubs_of(%s))) == 0 else fp(cc_cmds(dsubs_of(%s)), args, 0))" % (c, c, c)
+
+
 PDSC = M_DEF + ":DefaultResolver.process_default_sub_commands"
 R.contract(
     PDSC, params={"args": "ref RawArgs", "current_command": "ref Command"}, returns="ref ResolveResult",
-    ensures=["result.g_base is current_command"], raises={"Exception": "True"}, modifies=[], assumed=True,
-    note="ghost g_base: the command from which the default-sub-command rule started (the rule itself: bounded tier)",
+    ensures=["result._command is %s" % sel("current_command"), "result._raw_args is args"],
+    raises={"Exception": "True"}, modifies=[],
 )
 PO = M_DEF + ":DefaultResolver.process_options"
 R.contract(
     PO, params={"args": "ref RawArgs", "current_command": "ref Command", "options_to_test": "list[str]"},
     returns="ref ResolveResult",
     # options after the path never change the selection: the default rule starts from the command the path reached
-    ensures=["result.g_base is current_command"], raises={"Exception": "True"}, modifies=[],
+    ensures=["result._command is %s" % sel("current_command"), "result._raw_args is args"],
+    raises={"Exception": "True"}, modifies=[],
 )
 R.loop(PO, 0, invariants=["True"], modifies=[], fingerprint="option in options_to_test")
 
@@ -158,9 +212,9 @@ R.contract(
     ensures=[
         # nothing is selected iff the first leading token names no command (or there is none)
         "(result is None) == (not %s)" % HAS0,
-        # otherwise the selection starts from the command reached by the longest prefix of the leading tokens that
-        # names a path of commands -- whatever the options are
-        "implies(%s, result.g_base is wcmd(%s, %s, 1))" % (HAS0, FIRST, N),
+        # otherwise: the command reached by the longest prefix of the leading tokens that names a path of commands,
+        # continued into its default sub-command if it has one -- whatever the options are
+        "implies(%s, result._command is %s and result._raw_args is args)" % (HAS0, sel("wcmd(%s, %s, 1)" % (FIRST, N))),
     ],
     raises={"Exception": "True"},
     modifies=[],
